@@ -71,9 +71,11 @@ translated from; if a spec file changes, the check fails as "stale translation" 
 Status values:
 
 * **validated (…)** — every clause was evaluated on every input of the stated bound and held.
-* **WRONG as declared** — the real function violates a clause for some input (the counterexample is given). Where the
-  contract holds on the sub-domain the verified callers actually use, a second ("restricted") check shows that.
-  The failing check is kept: ` + "`bounded`" + ` exits with status 1 until the contract is corrected.
+* **WRONG as declared** — the real function violates a clause for some input (the counterexample is given).
+  The failing check is kept: ` + "`bounded`" + ` exits with status 1 until the contract is corrected. (Round 1 found nine such contracts:
+  syserror.Wrap, Buffer.WriteRune, strings.ReplaceAll / Split / SplitN, sort.Search, errors.As, StripSourceRetentionOptions,
+  NewPackageVersionForPackage; all were corrected in the spec files - look for "(bounded validation: ...)" comments - and the
+  checks below are translated from the corrected clauses.)
 * **not validated: reason** — nothing was run.
 
 Clauses about ghost state (` + "`ghost.fail == (old(ghost.fail) || err != nil)`" + `, touched-path sets, counters) define the ghost
@@ -87,7 +89,7 @@ const coverageFooter = `
 | where | function | status |
 |---|---|---|
 | gocv/internal/gocv/exec_expr.go (errors.Join with a literal argument list) | ` + "`errors.Join`" + ` | same statement as std/errors.spec errors.Join: see there |
-| gocv/internal/gocv/exec_call.go sortSliceIntrinsic | ` + "`sort.Slice`, `sort.SliceStable`" + ` with a literal comparator | permutation + "for all a < b the comparator on (b, a) is false": validated for comparators that are strict weak orders; **WRONG for comparators that are not** (e.g. ` + "`x[i] <= x[j]`" + `: sort.Slice(["a","a"]) leaves less(1,0) true). The intrinsic has no side condition on the comparator. The comparators in the verified code (tag_ranges.go, bufimage.go) are strict weak orders. |
+| gocv/internal/gocv/exec_call.go sortSliceIntrinsic + sortComparatorObligations | ` + "`sort.Slice`, `sort.SliceStable`" + ` with a literal comparator | the engine first emits #sort-comparator[N.irreflexive / transitive / ties-transitive] for the comparator (over indexes of the slice at the call) and then assumes: permutation + "for all a < b the comparator on (b, a) is false". Validated: for ALL 512 relations on a 3-value domain used as comparator on (x[i], x[j]) and 6 named comparators (long inputs included), whenever the obligations hold the assumptions hold. **Open**: a comparator that depends on the indexes themselves can pass the obligations and break the assumption: ` + "`func(i, j int) bool { return i > j }`" + ` (see the check "comparators that depend on the INDEXES"); ` + "`i < j`" + ` and the tiebreak ` + "`x[i] < x[j] || (x[i] == x[j] && i < j)`" + ` are fine. No comparator in the verified code uses its indexes other than as x[i] / x[j]. |
 | gocv/internal/gocv/exec_expr.go (calls through function values) | callbacks | ghost bookkeeping (ghost.cbCalls, ghost.fail): definitions |
 
 ## Not importable / skipped repo packages
